@@ -73,15 +73,76 @@ theorem fmtIntCore_no_fault (f : Fmt) (i : Int) (hgo : GoOK f) (k : FaultKind) :
     repeat (split; · simp)
     simp
 
+theorem sprintfF_ok (io : FloatIO) (fm : Str) (bits : Nat) (c : Char) (h : VerbOK fm c) (hc : isGoFloatVerb c = true) :
+    ∃ s, sprintfF io fm bits = .ok s := by
+  unfold VerbOK at h
+  unfold sprintfF
+  split at h
+  · rename_i g hg; rw [hg]; simp only; rw [h, hc]; exact ⟨_, rfl⟩
+  · exact absurd h id
+
+theorem floatGFormat_ok (io : FloatIO) (f : Fmt) (bits : Nat) (hl : f.letter = 'g' ∨ f.letter = 'G') (h : FloatOK f) :
+    ∃ s, floatGFormat io f bits = .ok s := by
+  have hv : isGoFloatVerb f.letter = true := by rcases hl with h' | h' <;> rw [h'] <;> decide
+  obtain ⟨str, hstr⟩ := sprintfF_ok io _ bits f.letter h.1 hv
+  unfold floatGFormat
+  rw [hstr]
+  simp only
+  unfold floatGRest
+  by_cases hG : f.letter = 'G'
+  · have hE : ∃ s, sprintfF io (goFormat (replaceFormatChar f 'E')) bits = .ok s :=
+      sprintfF_ok io _ bits 'E' h.2.2 (by decide)
+    simp only [hG, if_true]
+    by_cases h1 : str.contains 'E' = true
+    · rw [if_pos h1]; exact ⟨_, rfl⟩
+    · rw [if_neg h1]
+      by_cases h2 : gForced f str = true
+      · rw [if_pos h2]; exact hE
+      · rw [if_neg h2]; exact ⟨_, rfl⟩
+  · have he : ∃ s, sprintfF io (goFormat (replaceFormatChar f 'e')) bits = .ok s :=
+      sprintfF_ok io _ bits 'e' h.2.1 (by decide)
+    simp only [hG, if_false]
+    by_cases h1 : str.contains 'e' = true
+    · rw [if_pos h1]; exact ⟨_, rfl⟩
+    · rw [if_neg h1]
+      by_cases h2 : gForced f str = true
+      · rw [if_pos h2]; exact he
+      · rw [if_neg h2]; exact ⟨_, rfl⟩
+
+theorem floatOK_defaults : FloatOK defaultFormatP ∧ FloatOK defaultFormatS := by decide
+
+theorem exceptRes_no_fault (r : Except FaultKind Str) (k : Str → Str) (h : ∃ s, r = .ok s) (e : FaultKind) :
+    exceptRes r k ≠ .fault e := by
+  obtain ⟨s, rfl⟩ := h; simp [exceptRes]
+
 theorem fmtFloat_no_fault (io : FloatIO) (f : Fmt) (bits : Nat) (hgo : GoOK f) (k : FaultKind) :
     fmtFloat io f bits ≠ .fault k := by
-  obtain ⟨g, hg, _⟩ := hgo.spec
+  obtain ⟨g, hg, hgv, _⟩ := hgo.spec
   unfold fmtFloat
   by_cases h1 : isRadixLetter f.letter = true
   · rw [if_pos h1]; exact fmtIntCore_no_fault f _ hgo k
-  · rw [if_neg h1, hg]
-    repeat (split; · simp)
-    simp
+  · rw [if_neg h1]
+    by_cases h2 : f.letter = 'p'
+    · rw [if_pos h2]
+      exact exceptRes_no_fault _ _ (floatGFormat_ok io defaultFormatP bits (Or.inl rfl) floatOK_defaults.1) k
+    · rw [if_neg h2]
+      by_cases h3 : (decide (f.letter = 'e') || decide (f.letter = 'E') || decide (f.letter = 'f')) = true
+      · rw [if_pos h3]
+        apply exceptRes_no_fault
+        have hv : VerbOK (goFormat f) f.letter := by unfold VerbOK; rw [hg]; exact hgv
+        apply sprintfF_ok io _ bits f.letter hv
+        simp only [Bool.or_eq_true, decide_eq_true_eq] at h3
+        rcases h3 with (h' | h') | h' <;> rw [h'] <;> decide
+      · rw [if_neg h3]
+        by_cases h4 : (decide (f.letter = 'g') || decide (f.letter = 'G')) = true
+        · rw [if_pos h4]
+          simp only [Bool.or_eq_true, decide_eq_true_eq] at h4
+          exact exceptRes_no_fault _ _ (floatGFormat_ok io f bits h4 hgo.2) k
+        · rw [if_neg h4]
+          by_cases h5 : f.letter = 's'
+          · rw [if_pos h5]
+            exact exceptRes_no_fault _ _ (floatGFormat_ok io defaultFormatS bits (Or.inl rfl) floatOK_defaults.2) k
+          · rw [if_neg h5]; simp
 
 theorem fmtInt_no_fault (io : FloatIO) (f : Fmt) (i : Int) (hgo : GoOK f) (k : FaultKind) : fmtInt io f i ≠ .fault k := by
   unfold fmtInt
